@@ -366,6 +366,7 @@ def run(prop, tier, replay=None):
         text = render(rng, desc_toks(rng, d), rng.choice(["canon", "wild"]))
         cases.append({"text": text, "via_cli": rng.random() < 0.25, "declared": listing_declared(d)})
     cases.append({"text": 'version: "3"\nstruct A {\n    x @ -1: u8,\n}\n'})  # recorded finding: negative field id
+    cases.append({"text": 'version: "3"\nstruct A {\n    x @ 0: u8,\n}\nservice S @ -1 {\n    method m(A) @ -2 returns A,\n}\n'})  # ... service / method id
     cases.append({"text": 'version: "3"\nenum E {\n    A = -2147483648,\n}\nstruct S {\n    e @ 0: E,\n}\n'})  # recorded: signed-min
     # recorded finding: an enumerator outside the i32 of `Enumeration.value`
     cases.append({"text": 'version: "3"\nenum E {\n    A = 0,\n    B = 4294967301,\n}\nstruct S {\n    e @ 0: E,\n}\n'})
@@ -429,12 +430,14 @@ def run(prop, tier, replay=None):
             continue
         if not m["wf"]:
             # the record does not fit the reflection schema (e.g. a negative field id in `field_id: u32`)
-            neg = any(f["id"] < 0 for s in o["rschema"]["structs"] for f in s["fields"])
+            neg = any(f["id"] < 0 for s in o["rschema"]["structs"] for f in s["fields"]) or \
+                any(sv["id"] < 0 or any(mt["id"] < 0 for mt in sv["methods"]) for sv in o["rschema"]["services"])
             big = any(not -2 ** 31 <= x["value"] < 2 ** 31 for e in o["rschema"]["enums"] for x in e["items"])
             rep.hist("outcome", "out-of-reflection-range")
             if neg and neg_listed and o.get("roundtrip") is False:
-                rep.known_finding("a negative field id (accepted by parser and verifier) does not survive the reflection "
-                                  "round trip: field_id is u32 in reflection.fcp (witness: struct A { x @ -1: u8 })")
+                rep.known_finding("a negative id of a field, a service or a method (accepted by parser and verifier) does not survive "
+                                  "the reflection round trip: field_id, Service.id and Method.id are u32 in reflection.fcp (witnesses: "
+                                  "struct A { x @ -1: u8 }; service S @ -1 { method m(A) @ -2 returns A })")
             elif big and big_listed and o.get("roundtrip") is False:
                 rep.known_finding("an enumerator outside -2^31..2^31-1 (accepted by parser and verifier, encoded by the codecs) "
                                   "does not survive the reflection round trip: Enumeration.value is i32 in reflection.fcp "
